@@ -40,6 +40,21 @@ pub mod verif_budget {
     pub(super) fn exhausted(budget: &AtomicUsize, passes_done: usize) -> bool {
         passes_done >= budget.load(Ordering::SeqCst)
     }
+    /// The start of the analysis as the time box sees it: moved back past the
+    /// allotted duration once the pass budget is exhausted.
+    pub(super) fn start_after(
+        budget: &AtomicUsize,
+        passes_done: usize,
+        start: std::time::Instant,
+    ) -> std::time::Instant {
+        if exhausted(budget, passes_done) {
+            start
+                .checked_sub(super::MAX_ANALYSIS_DURATION + std::time::Duration::from_secs(1))
+                .expect("verif: the monotonic clock is younger than the time box")
+        } else {
+            start
+        }
+    }
 }
 
 #[derive(Clone)]
@@ -492,13 +507,12 @@ impl Cfg {
             for basic_block in self.iter_mut() {
                 rerun = rerun || basic_block.propagate_degrees(&mut env);
             }
+            // Verification hook: an exhausted pass budget makes the time box below fire.
             #[cfg(circomspect_verif)]
-            {
+            let start = {
                 verif_passes += 1;
-                if verif_budget::exhausted(&verif_budget::DEGREE_PASSES, verif_passes) {
-                    rerun = false;
-                }
-            }
+                verif_budget::start_after(&verif_budget::DEGREE_PASSES, verif_passes, start)
+            };
             // Bail out if analysis takes more than 10 seconds.
             if start.elapsed() > MAX_ANALYSIS_DURATION {
                 debug!("failed to propagate degrees within allotted time");
@@ -525,13 +539,12 @@ impl Cfg {
             for basic_block in self.iter_mut() {
                 rerun = rerun || basic_block.propagate_values(&mut env);
             }
+            // Verification hook: an exhausted pass budget makes the time box below fire.
             #[cfg(circomspect_verif)]
-            {
+            let start = {
                 verif_passes += 1;
-                if verif_budget::exhausted(&verif_budget::VALUE_PASSES, verif_passes) {
-                    rerun = false;
-                }
-            }
+                verif_budget::start_after(&verif_budget::VALUE_PASSES, verif_passes, start)
+            };
             // Bail out if analysis takes more than 10 seconds.
             if start.elapsed() > MAX_ANALYSIS_DURATION {
                 debug!("failed to propagate values within allotted time");
